@@ -5,8 +5,10 @@ import (
 	"os"
 	"path/filepath"
 	"regexp"
+	"sort"
 	"strconv"
 	"strings"
+	"time"
 )
 
 func init() { checks["C19"] = checkC19 }
@@ -114,6 +116,35 @@ func checkC19(c *checkCtx) {
 		s.goText = genUserGo(s.dump, userOpts{})
 		jobs = append(jobs, s)
 	}
+	// every second directory first holds the output of a DIFFERENT terminal set (two extra @external names in
+	// front), then gets its real specification back with file times in the past: the constants must be the ones of
+	// the specification that is there now, whatever an earlier run left behind
+	staged := 0
+	for k, s := range jobs {
+		if k%2 == 1 {
+			continue
+		}
+		files, _ := filepath.Glob(filepath.Join(s.dir, "*.lox"))
+		sort.Strings(files)
+		for _, f := range files {
+			orig, err := os.ReadFile(f)
+			if err != nil || !strings.Contains(string(orig), "@lexer\n") {
+				continue
+			}
+			decoy := strings.Replace(string(orig), "@lexer\n", "@lexer\n@external DECOY_A DECOY_B\n", 1)
+			os.WriteFile(f, []byte(decoy), 0o644)
+			os.WriteFile(filepath.Join(s.dir, "parser.go"), []byte(s.goText), 0o644)
+			run(ws.dir, 5*time.Minute, nil, loxBin, s.dir)
+			os.WriteFile(f, orig, 0o644)
+			past := time.Now().Add(-2 * time.Hour)
+			for _, g := range files {
+				os.Chtimes(g, past, past)
+			}
+			staged++
+			break
+		}
+	}
+	c.cov.Extra = mergeExtra(c.cov.Extra, map[string]any{"directories_holding_an_earlier_runs_output": staged})
 	ws.genAll()
 	ws.buildAll()
 	var reqs []*req
